@@ -370,6 +370,9 @@ func c06(c *Ctx) {
 		})
 	}
 	errorsExamined(c, "R7.errors-examined", "content store and gossip", []string{"storage/pebble", "portalwire"}, "(*storage/pebble.ContentStorage).", "storage/pebble.NewStorage", ".GossipAndReturnPeers", ".processPing", ".processPongPayload")
+	if sm, _ := newStoreModel(c); sm != nil {
+		pruneScansWholeKeyspace(c, sm, "R5.radius-writers")
+	}
 }
 
 func derivesFromBoth(v ssa.Value, fn *ssa.Function) bool {
@@ -419,7 +422,7 @@ func decodedFromIterKey(fn *ssa.Function, val ssa.Value) bool {
 func c17(c *Ctx) {
 	p, r := c.P, c.R
 	r.Technique = "structural write-grouping analysis over go/ssa: same-batch identity of the item and size-record writes, single commit after both, no direct DB writes, synced prune commit; open-time gates by must-pass-through (cut) checks"
-	r.Explanation = "Decides the write-grouping and open-time structure that crash consistency rests on (nothing is executed, no crash point is enumerated): (R1) in Put the size record and the item are set on the same batch, which is committed exactly once after both, what Put adds to the usage figure is len(id)+len(value) of the item on every path, and no store code writes to the database outside a batch; (R2) in prune all deletes and the size record go to one batch committed with Sync=true; (R3) on open: the radius is initialised to the maximum before anything is read, the usage counter is restored from the size record, size > capacity leads to prune (C05.R2), the radius is replaced only under size > 95% of capacity by a value decoded from Iterator.Last's key, and every failing database call returns its error (no half-initialised store); (R4) Get returns only (a copy of) bytes read from the database (no cache layer). Not decided: the enumeration of crash points and file-system semantics, and pebble's WAL atomicity itself."
+	r.Explanation = "Decides the write-grouping and open-time structure that crash consistency rests on (nothing is executed, no crash point is enumerated): (R1) in Put the size record and the item are set on the same batch, which is committed exactly once after both, what Put adds to the usage figure is len(id)+len(value) of the item on every path, and no store code writes to the database outside a batch; (R2) in prune all deletes and the size record go to one batch committed with Sync=true; (R3) on open: the radius is initialised to the maximum before anything is read, the usage counter is restored from the size record, size > capacity leads to prune (C05.R2), the radius is replaced only under size > 95% of capacity by a value decoded from Iterator.Last's key, and every failing database call returns its error (no half-initialised store); the reserved size record lives under the all-zero 32-byte key (below every content key); (R4) Get returns only (a copy of) bytes read from the database (no cache layer). Not decided: the enumeration of crash points and file-system semantics, and pebble's WAL atomicity itself."
 	r.Assumptions = []string{"pebble: a batch commit is atomic in the WAL; Sync=true makes it durable before returning"}
 	r.Floor("R1.put-batch", 4)
 	r.Floor("R2.prune-batch", 3)
@@ -679,6 +682,7 @@ func c17(c *Ctx) {
 	}
 	r.Check(okGet, "R4.get", core.FuncName(m.get), p.Pos(m.get.Pos()), "returns only bytes read from the database", "Get can return bytes that were not read from the database (cache layer or other source)")
 	errorsExamined(c, "R5.errors-examined", "content store", []string{"storage/pebble"}, "(*storage/pebble.ContentStorage).", "storage/pebble.NewStorage")
+	sizeKeyIsSmallest(c, "R3.open")
 }
 
 // sameLoopAsHelper: block b lies in a loop of fn that also contains a call of helper.
